@@ -42,7 +42,7 @@ import (
 type procEnv struct {
 	dir    string
 	ecKeys []*SignKey
-	rsaKey *SignKey
+	rsaKeys []*SignKey
 	redis  map[string]*miniredis.Miniredis // "redis", "redis2"
 	logger telemetry.Logger
 }
@@ -58,7 +58,7 @@ func initProcEnv() {
 	for i := 0; i < 6; i++ {
 		penv.ecKeys = append(penv.ecKeys, newECKey(fmt.Sprintf("ec-%d", i)))
 	}
-	penv.rsaKey = newRSAKey("rsa-0")
+	penv.rsaKeys = []*SignKey{newRSAKey("rsa-0"), newRSAKey("rsa-1")}
 	for _, n := range []string{"redis", "redis2"} {
 		m := miniredis.NewMiniRedis()
 		if err := m.Start(); err != nil {
@@ -255,9 +255,13 @@ func NewWorld(spec *WorldSpec, schedSeed uint64, policy int, faults []Fault) *Wo
 		p.ServerCA = is.ServerCA
 		p.Knobs = is.Knobs
 		// keys: IdP i signs with ecKeys[2i] (active) and may rotate to ecKeys[2i+1]
-		p.Keys = []*SignKey{penv.ecKeys[(2*i)%len(penv.ecKeys)], penv.ecKeys[(2*i+1)%len(penv.ecKeys)], penv.rsaKey}
-		if is.Knobs.Alg == "RS256" {
-			p.Cur = 2
+		// every provider has its own keys: two EC keys (active + rotation target) and, for the first two, an RSA key
+		p.Keys = []*SignKey{penv.ecKeys[(2*i)%len(penv.ecKeys)], penv.ecKeys[(2*i+1)%len(penv.ecKeys)]}
+		if i < len(penv.rsaKeys) {
+			p.Keys = append(p.Keys, penv.rsaKeys[i])
+			if is.Knobs.Alg == "RS256" {
+				p.Cur = 2
+			}
 		}
 		p.Published = []*SignKey{p.Keys[p.Cur]}
 		w.IdPs = append(w.IdPs, p)
